@@ -429,4 +429,156 @@ def jCacheJacobianNoTouch (c : JCache κ ν γ) (x : κ) (j : γ) : JCache κ ν
   if !r.2 && hasJac r.1 then r.1
   else { r.1 with entries := modifyAt (fun e => { e with jac := some j }) r.1.entries (r.1.last - 1) }
 
+/-! ## 6. Tasks with effects on the objects they run on
+
+The tasks of §1 are pure functions of their input.  The tasks of `DiscParallelExecution`,
+`DiscParallelLinearization` and `MDOParallelChain` are calls of `_Functor.__call__` on a *discipline
+object*: they read and write the execution status of that object (`ExecutionStatus.handle` refuses to
+start from `FAILED`, an exception leaves `FAILED` behind) and a discipline working in place overwrites
+the input array it was handed.  `estep?` is the pool of §1 in which `finish w` runs the task on an
+object of a memory; which object is given by `obj worker task` (threads: the caller's object whatever
+the worker; forked processes: the worker's private copy). -/
+
+structure ECfg (σ β : Type) where
+  nTasks : Nat
+  nProcs : Nat
+  /-- The object (index in the memory) task `i` acts on when worker `w` runs it. -/
+  obj : Nat → Nat → Nat
+  /-- Running task `i` on an object in state `o`: what is put in `queue_out`, the object afterwards. -/
+  body : Nat → σ → Outcome β × σ
+
+structure EState (σ β : Type) where
+  pool : State β
+  mem : List σ
+
+variable {σ : Type}
+
+/-- The pure configuration with the same tasks, task `i` giving `out i`.  The transitions other than
+    `finish` only look at the number of tasks. -/
+def ECfg.pure (ec : ECfg σ β) (out : Nat → Outcome β) : Cfg Nat β :=
+  ⟨List.range ec.nTasks, [out], ec.nProcs⟩
+
+def einit (ec : ECfg σ β) (mem0 : List σ) : EState σ β :=
+  { pool := init (ec.pure (fun _ => .fail)), mem := mem0 }
+
+def estep? (ec : ECfg σ β) (s : EState σ β) : Op → Option (EState σ β)
+  | .finish w =>
+    match s.pool.workers[w]? with
+    | some (.busy i) =>
+      match s.mem[ec.obj w i]? with
+      | some o =>
+        let r := ec.body i o
+        some { pool := { s.pool with workers := s.pool.workers.set w .idle,
+                                     queueOut := s.pool.queueOut ++ [(i, r.1)] },
+               mem := s.mem.set (ec.obj w i) r.2 }
+      | none =>
+        -- no such object: an `IndexError` inside the worker's `try` block
+        some { s with pool := { s.pool with workers := s.pool.workers.set w .idle,
+                                            queueOut := s.pool.queueOut ++ [(i, .fail)] } }
+    | _ => none
+  | .submit => (step? (ec.pure (fun _ => .fail)) s.pool .submit).map (fun p => { s with pool := p })
+  | .take w => (step? (ec.pure (fun _ => .fail)) s.pool (.take w)).map (fun p => { s with pool := p })
+  | .collect => (step? (ec.pure (fun _ => .fail)) s.pool .collect).map (fun p => { s with pool := p })
+  | .shutdown => (step? (ec.pure (fun _ => .fail)) s.pool .shutdown).map (fun p => { s with pool := p })
+
+def erun? (ec : ECfg σ β) (s : EState σ β) : List Op → Option (EState σ β)
+  | [] => some s
+  | op :: ops =>
+    match estep? ec s op with
+    | some s' => erun? ec s' ops
+    | none => none
+
+/-- Forked workers: every worker gets a private copy of the objects of the main process; the copy of
+    object `j` held by worker `w` is at index `w * main.length + j`. -/
+def forkMem (main : List σ) (nWorkers : Nat) : List σ := (List.replicate nWorkers main).flatten
+
+/-! ### The objects and tasks of the discipline executors -/
+
+/-- A discipline object together with the input array it holds: `val` the array (a scalar here),
+    `failed` = `execution_status.value == FAILED`, `writable` = `flags.writeable` of the array. -/
+structure ObjSt where
+  val : Rat
+  failed : Bool
+  writable : Bool
+  deriving Repr, DecidableEq
+
+/-- `DiscParallelExecution` / `DiscParallelLinearization(execute=True)` / `(execute=False)`. -/
+inductive CallKind where
+  | exec
+  | lin
+  | linNoExec
+  deriving Repr, DecidableEq
+
+/-- Where the user code raises: nowhere, in `_run`, in `_compute_jacobian`. -/
+inductive Fault where
+  | none
+  | run
+  | jac
+  deriving Repr, DecidableEq
+
+/-- One task = one call of `_Functor.__call__(inputs)`. -/
+structure DiscCall where
+  kind : CallKind
+  /-- `some x`: the task brings its own input array (`inputs[i]`, or a copy pickled through the queue);
+      `none`: the input is the array the object holds (`MDOParallelChain._get_input_data_copies`). -/
+  own : Option Rat
+  /-- `_run` multiplies its input array **in place** by `c`. -/
+  scale : Option Rat
+  /-- Outputs `a x + b` of the (scaled) input, Jacobian `a`. -/
+  a : Rat
+  b : Rat
+  fault : Fault
+  /-- The class of the exception the user code raises is in `exceptions_to_re_raise`. -/
+  reraised : Bool
+  deriving Repr, DecidableEq
+
+def DiscCall.executes (t : DiscCall) : Bool := t.kind != .linNoExec
+
+/-- `discipline.execute(inputs)` / `discipline.linearize(inputs, execute=...)` on an object whose
+    status is whatever it is: `ExecutionStatus.handle` refuses to leave `FAILED` (`ValueError`, the
+    status stays `FAILED`); an exception of the user code or of numpy (write into a read-only array)
+    leaves `FAILED`; a normal end leaves `DONE`. -/
+def discCore (t : DiscCall) (o : ObjSt) : Outcome Rat × ObjSt :=
+  if o.failed then (.fail, o)
+  else
+    let x := t.own.getD o.val
+    let wr := t.own.isSome || o.writable
+    let userErr : Outcome Rat := if t.reraised then .failStop else .fail
+    if t.executes && t.fault == .run then (userErr, { o with failed := true })
+    else if t.executes && t.scale.isSome && !wr then (.fail, { o with failed := true })
+    else
+      let x' := if t.executes then (match t.scale with | some c => c * x | none => x) else x
+      let o' : ObjSt := if t.own.isSome then o else { o with val := x' }
+      if t.kind == .exec then (.ok (t.a * x' + t.b), o')
+      else if t.fault == .jac then (userErr, { o' with failed := true })
+      else (.ok t.a, o')
+
+/-- `_reset_failed_status(discipline)`. -/
+def resetFailed (o : ObjSt) : ObjSt := { o with failed := false }
+
+/-- `_Functor.__call__`: `_reset_failed_status(disc)`, then execute / linearize (both functors, whatever
+    `execute`). -/
+def discCall (t : DiscCall) (o : ObjSt) : Outcome Rat × ObjSt := discCore t (resetFailed o)
+
+/-- What the code does **not** do (the status reset only when the linearization starts by an
+    execution).  Only used for a counter-example in `Props/C13.lean`. -/
+def discCallResetIfExecuting (t : DiscCall) (o : ObjSt) : Outcome Rat × ObjSt :=
+  discCore t (if t.executes then resetFailed o else o)
+
+/-- The executor of discipline tasks: task `i` is `tasks[i]`, run on object `objOf[i]` of the main
+    process (threads) or on the worker's copy of it (forked processes, `nObj` objects per worker). -/
+def discECfg (threaded : Bool) (nObj nProcs : Nat) (tasks : List (Nat × DiscCall)) : ECfg ObjSt Rat :=
+  { nTasks := tasks.length
+    nProcs := nProcs
+    obj := fun w i => match tasks[i]? with
+      | some t => if threaded then t.1 else w * nObj + t.1
+      | none => 0
+    body := fun i o => match tasks[i]? with
+      | some t => discCall t.2 o
+      | none => (.fail, o) }
+
+/-- The memory a call starts with. -/
+def discMem (threaded : Bool) (main : List ObjSt) (nTasks nProcs : Nat) : List ObjSt :=
+  if threaded then main else forkMem main (min nTasks nProcs)
+
 end GV.C13
